@@ -23,7 +23,7 @@ static Case gen_compress_case(uint64_t seed, int tier, const char *prop, bool bo
   } else c.data = gen::input(rng, level, tier ? std::min<size_t>(3 * chunk, 2500000) : std::min<size_t>(2 * chunk + 5000, 450000), &c.data_desc);
   if (c.data.size() > 2800000) c.data.resize(2800000);
   c.runs.push_back(compress_cfg(rng, level, seq, boundary_bias ? 1 + (int)rng.below(8) : random_workers(rng), true));
-  if (rng.below(8) == 0) c.runs.back().operand2 = true;      // the input as the second FILE operand of the invocation (stream assembly state such as the combined CRC must start afresh)
+  if (rng.below(6) == 0) as_second_operand(rng, c.runs.back(), c.data.size(), true);      // the input as the second FILE operand (possibly still growing while it is read) of the invocation (stream assembly state such as the combined CRC must start afresh)
   return c;
 }
 
